@@ -311,10 +311,28 @@ fn usage<T: Transport>(d: &mut AnyDriver<T>, co: &CoRc, steps: usize, keep: &mut
                     let _ = s.pcm_set_params(0, 8, 4, PcmFeatures::empty(), 1, PcmFormat::U8, PcmRate::Rate8000);
                     // A non-blocking transfer which the device does not complete: its buffers are
                     // owned by the driver and stay posted.
-                    co.borrow_mut().responder = Box::new(|_, _, _| Action::Hold);
+                    // (Requests on the other queues are answered as before.)
+                    co.borrow_mut().responder = Box::new(|q, chain, req| {
+                        if q == 2 {
+                            Action::Hold
+                        } else if q == 1 || q == 3 {
+                            Action::Hold
+                        } else {
+                            let data = cosim::honest_response(Kind::Sound, q, req, chain.writable_len());
+                            let n = data.len() as u32;
+                            Action::Complete(data, n)
+                        }
+                    });
                     if let Ok(tok) = s.pcm_xfer_nb(0, &[1, 2, 3, 4]) {
                         keep.tokens.push(tok);
                     }
+                }
+                3 => {
+                    // Control operations on the stream while its transfers are still in flight:
+                    // nothing that is posted on the transmit queue may be freed by them.
+                    let _ = s.pcm_stop(0);
+                    let _ = s.pcm_release(0);
+                    let _ = s.pcm_prepare(0);
                 }
                 _ => {
                     // Polling it early must not release anything.
